@@ -169,6 +169,13 @@ def legal_menu(st, o=DEFAULT_OPTS):
                     if st.can_show_or_muck_hole_cards(t):
                         add((('show_or_muck_hole_cards', t), 1))
                 continue
+            if v == 'facedown':
+                # keep the hand without revealing it: every card given as unknown (cash games)
+                i = st.showdown_index
+                hc = st.hole_cards[i] if i is not None else ()
+                if hc and _yes(st.can_show_or_muck_hole_cards, '??' * len(hc)):
+                    add((('show_or_muck_hole_cards', '??' * len(hc)), 1))
+                continue
             add((('show_or_muck_hole_cards', v), 0 if v is None else 1))
     if o.get('show_players') and st.street is not None and len(st.showdown_indices) > 1:
         vals = o['show_players'] if isinstance(o['show_players'], (tuple, list)) else (None,)
